@@ -15,7 +15,7 @@ class C05(Config):
     shard_size = 120
     classes = {1: "C05-height-u32-panic", 2: "C05-blockhash-length-panic", 3: "C05-txid-length-panic",
                4: "C05-dup-txid-batched-miss"}
-    rule = ("one case per compact block scanned: chains of 1-4 fabricated blocks (real Sapling/Orchard/Ironwood notes to "
+    rule = ("one Scan case per compact block scanned and one Upd case per Nullifiers::update_with between consecutive blocks: chains of 1-5 fabricated blocks (notes received in block i are spent in later blocks of the same chain, all three pools; block headers present/absent/inconsistent with the raw fields) (real Sapling/Orchard/Ironwood notes to "
             "tracked accounts x {external,internal}, untracked and foreign keys, near-miss outputs, spends of tracked and "
             "untracked nullifiers, arbitrary per-transaction arrangement), a corruption stream on continuity metadata and "
             "field lengths, and multi-corruption single blocks; each chain is scanned inline (scan_block) and batched "
